@@ -130,11 +130,15 @@ def _check_qty(ctx, cls, unit, value, info):
     want = value * f
     if fx(float(q.si)) != fx(float(want)) or fx(float(q)) != fx(float(want)):
         ctx.viol("si-value", {**info, "got": fx(float(q.si)), "want": fx(float(want)), "factor": f})
-    dv = q.displayvalue
-    if abs(dv - value) > 4 * EPS * abs(value):
-        ctx.viol("displayvalue", {**info, "got": dv, "want": value})
     if q.unit != unit:
         ctx.viol("unit-getter", {**info, "got": q.unit})
+    try:
+        dv = q.displayvalue
+    except Exception as e:
+        ctx.viol(f"displayvalue:raises:{type(e).__name__}", {**info, "exc": repr(e)})
+        return None
+    if abs(dv - value) > 4 * EPS * abs(value):
+        ctx.viol("displayvalue", {**info, "got": dv, "want": value})
     disp = cls._displayunits.get(unit, unit)
     try:
         s = str(q)
